@@ -7,6 +7,7 @@
 #include <iomanip>
 #include <iostream>
 #include <numeric>
+#include <stdexcept>
 #include <utility>
 
 #include "density_legalizer.hpp"
@@ -36,6 +37,28 @@ std::vector<float> blendPlacement(const std::vector<float> &v1,
     ret.push_back((1.0f - blending) * v1[i] + blending * v2[i]);
   }
   return ret;
+}
+
+/**
+ * Fail loudly when the continuous solver diverged, instead of converting
+ * non-finite or absurdly large values to integer coordinates
+ */
+void checkFinitePlacement(const std::vector<float> &xplace,
+                          const std::vector<float> &yplace) {
+  // Coordinates are exported as int: anything beyond this cannot be valid
+  const float maxCoord = 1.0e9f;
+  for (float v : xplace) {
+    if (!(std::abs(v) <= maxCoord)) {
+      throw std::runtime_error(
+          "Global placement diverged: invalid x coordinate obtained");
+    }
+  }
+  for (float v : yplace) {
+    if (!(std::abs(v) <= maxCoord)) {
+      throw std::runtime_error(
+          "Global placement diverged: invalid y coordinate obtained");
+    }
+  }
 }
 }  // namespace
 
@@ -212,12 +235,14 @@ void GlobalPlacer::runInitialLB() {
       params_.global.continuousModel.maxNbConjugateGradientSteps;
   xPlacementLB_ = xtopo_.solveStar(params);
   yPlacementLB_ = ytopo_.solveStar(params);
+  checkFinitePlacement(xPlacementLB_, yPlacementLB_);
   std::cout << std::defaultfloat << std::setprecision(4) << "#0:\tLB "
             << valueLB() << std::endl;
   callback(PlacementStep::LowerBound, xPlacementLB_, yPlacementLB_);
   for (step_ = 1; step_ <= params_.global.nbInitialSteps; ++step_) {
     xPlacementLB_ = xtopo_.solve(xPlacementLB_, params);
     yPlacementLB_ = ytopo_.solve(yPlacementLB_, params);
+    checkFinitePlacement(xPlacementLB_, yPlacementLB_);
     std::cout << std::defaultfloat << std::setprecision(4) << "#" << step_
               << ":\tLB " << valueLB() << std::endl;
     callback(PlacementStep::LowerBound, xPlacementLB_, yPlacementLB_);
@@ -257,6 +282,7 @@ void GlobalPlacer::runLB() {
   xPlacementLB_ = x.get();
   yPlacementLB_ = y.get();
   COLOQUINTE_VERIF_POINT("runLB:joined", this);
+  checkFinitePlacement(xPlacementLB_, yPlacementLB_);
   callback(PlacementStep::LowerBound, xPlacementLB_, yPlacementLB_);
 }
 
